@@ -50,6 +50,11 @@ var checks = map[string]checkSpec{
 		Rule: "For every Transport/Client response kind of the corpus, every length or count field of the encoded response (frame size, fixed and compact string/bytes/array lengths, tagged-field counts and sizes, record-set size, batch length / message size and, left with their wrong checksum, the lengths inside record batches) is overwritten with each value of {-2^31, -2, -1, 0, 1, 2^16, 2^31-1, (varints:) 2^32, 2^63-1, true-1, true+1, rest-of-frame+1}; the call must return (no panic, no process death), within its deadline, and allocate no more than 64 x bytes received + 1 MiB (+ a fixed decompressor allowance).",
 		Assume: []string{"allocation is measured with runtime.MemStats.TotalAlloc around the call in a single-goroutine-at-a-time simulation"},
 	},
+	"C12": {
+		Scenarios: []scnSpec{{Name: "routing", Share: 1}},
+		Quick:     40 * time.Second, Thorough: 12 * time.Minute, Level: "exploration",
+		Rule: "2-5 brokers with heterogeneous advertised version tables ([min,max] per api and broker), topics, partitions and groups spread over them; 1-4 goroutines issue every routed kind of Client call (produce, fetch, multi-leader list-offsets, group requests, create-topics, transactional InitProducerID, filtered metadata) while leaders, coordinators and the controller move; every request in the brokers' journal must have gone to the broker designated by a metadata snapshot (or FindCoordinator answer) delivered within MetadataTTL + RTT before its arrival, at the highest version common to the library's declared range and the range that broker advertised.",
+	},
 	"C07": {
 		Scenarios: []scnSpec{{Name: "writer", Params: "focus=order", Share: 1}},
 		Quick:     35 * time.Second, Thorough: 10 * time.Minute, Level: "exploration",
